@@ -10,6 +10,7 @@ CONSTANTS
   MaxRoute = 1
   PkFromPrepare = FALSE
   TakeAll = FALSE
+  KsFailureIsNotExist = TRUE
   DefectNoConnCached = TRUE
   Variant = "ok"
   MaxCmds = 30
